@@ -7752,8 +7752,7 @@ class Parser:
         if self._match_text_seq("FOR", "REPLICATION"):
             return self.expression(exp.NotForReplicationColumnConstraint())
 
-        # Unconsume the `NOT` token
-        self._retreat(self._index - 1)
+        # The caller (_parse_column_constraint) unconsumes the `NOT` token when no constraint is returned
         return None
 
     def _parse_column_constraint(self) -> exp.Expr | None:
